@@ -76,6 +76,23 @@ def mirrorExRes (L : Int) : Except CErr (Iv × List Iv) → Except CErr (Iv × L
   | .ok (r, l) => .ok (mirrorIv L r, mirrorL L l)
   | .error e => .error e
 
+/-- `mirrorMEvent` that keeps the two sentinels of `read_region` (what `JunctionComparator` emits for the mirrored read):
+    the undefined region stays; an event whose read region starts with the absent sentinel names a read EXON `k`
+    (`fake_micro_intron_retention`), which is exon `nRead − k` from the other end; every other event is `mirrorMEvent` -/
+def mirrorMEventS (nRead nIso : Nat) (e : MEvent) : MEvent :=
+  if e.read = undefinedRegion then { etype := swapLR e.etype, iso := mirrorIdx nIso e.iso, read := e.read }
+  else if e.read.1 = absentPosition then
+    { etype := swapLR e.etype, iso := mirrorIdx nIso e.iso, read := (absentPosition, (nRead : Int) - e.read.2) }
+  else mirrorMEvent nRead nIso e
+
+/-- the event LIST of the mirrored read: every event seen from the other end, in the opposite order -/
+def mirrorEventList (nRead nIso : Nat) (evs : List MEvent) : List MEvent :=
+  (evs.map (mirrorMEventS nRead nIso)).reverse
+
+def mirrorExL (L : Int) : Except CErr (List Iv) → Except CErr (List Iv)
+  | .ok l => .ok (mirrorL L l)
+  | .error e => .error e
+
 /-! ### GTF (Model/Gtf.lean) -/
 
 def shiftFeat (k : Int) (f : Feat) : Feat := (f.1 + k, f.2.1 + k, f.2.2)
